@@ -44,8 +44,12 @@ double kolmogorov_smirnov::delta(const Sketch& sketch1, const Sketch& sketch2) {
     } else if (comparator((*it2).first, (*it1).first)) {
       ++it2;
     } else {
-      ++it1;
-      ++it2;
+      // equal items: both distribution functions jump at this item, so all entries equivalent to it are consumed
+      // from both views before the functions are compared again (in between one of them would be seen mid-jump,
+      // which overstated the delta whenever the multiplicities or weights of the equal entries differed)
+      const auto item_it = it1;
+      do { ++it1; } while (it1 != view1.end() && !comparator((*item_it).first, (*it1).first));
+      do { ++it2; } while (it2 != view2.end() && !comparator((*item_it).first, (*it2).first));
     }
   }
   const double norm_cum_wt1 = it1 == view1.end() ? 1 : static_cast<double>(it1.get_cumulative_weight(false)) / n1;
